@@ -70,6 +70,20 @@ MANIFEST = {
                  "order + exhaustive differential enumeration of callers x bodies x resolver outcomes",
 }
 
+
+_FAIL_SEEN: dict[str, int] = {}
+
+
+def _fail(ctx: Any, case: Any, key: str, what: str) -> None:
+    """Report at most three failing inputs per key, so one defect cannot crowd a different one out of the failure list."""
+    n = _FAIL_SEEN.get(key, 0)
+    _FAIL_SEEN[key] = n + 1
+    if n < 3:
+        ctx.fail(case, key, what)
+    else:
+        ctx.note("failures_beyond_three_per_key", sum(max(0, v - 3) for v in _FAIL_SEEN.values()))
+
+
 ALLOW = ["proxy@example.com", "svc-ß"]
 ENDPOINT = "/__introspect_token__"
 _STRICT_JWS = re.compile(r"\A[A-Za-z0-9_-]+\.[A-Za-z0-9_-]+\.[A-Za-z0-9_-]*\Z")  # the *spec*: three base64url segments
@@ -453,56 +467,56 @@ def run_case(ctx: Any, rig: Rig, st: State, app: str, caller: dict[str, Any], bo
     # ---------------- O: the property on the implementation -----------------------------------------
     where = _echo(token, obs, outcome)
     if where:
-        ctx.fail(case, f"C36:subject-echoed:{where}:{status}", f"the subject credential occurs in the response ({where}, status {status})")
+        _fail(ctx, case, f"C36:subject-echoed:{where}:{status}", f"the subject credential occurs in the response ({where}, status {status})")
         return
     if app == "disabled":
         fp = _fingerprint(obs)
         if status != 404 or _json_or_none(obs["content"]) != {"error": "not_enabled"}:
-            ctx.fail(case, f"C36:disabled-not-definitive:{status}", f"worker without introspection answered {status} {obs['content'][:80]!r}")
+            _fail(ctx, case, f"C36:disabled-not-definitive:{status}", f"worker without introspection answered {status} {obs['content'][:80]!r}")
             return
         if obs["calls"]:
-            ctx.fail(case, "C36:disabled-consulted-resolver", "resolver consulted although introspection is disabled")
+            _fail(ctx, case, "C36:disabled-consulted-resolver", "resolver consulted although introspection is disabled")
             return
         if st.ref_disabled is None:
             st.ref_disabled = (fp, case)
         elif st.ref_disabled[0] != fp:
-            ctx.fail(case, "C36:disabled-not-uniform", f"not_enabled answers differ: {fp!r} vs {st.ref_disabled[0]!r}")
+            _fail(ctx, case, "C36:disabled-not-uniform", f"not_enabled answers differ: {fp!r} vs {st.ref_disabled[0]!r}")
             return
     elif app == "limited":
         pass  # 429 is outside the property: K only
     elif not authorised:
         if status != 403:
-            ctx.fail(case, f"C36:caller-not-refused:{caller['mode']}:{status}", f"caller outside the allow-list got {status} {obs['content'][:80]!r}")
+            _fail(ctx, case, f"C36:caller-not-refused:{caller['mode']}:{status}", f"caller outside the allow-list got {status} {obs['content'][:80]!r}")
             return
         if obs["calls"]:
-            ctx.fail(case, "C36:resolver-consulted-for-refused-caller", f"resolver consulted ({len(obs['calls'])}x) for a caller outside the allow-list")
+            _fail(ctx, case, "C36:resolver-consulted-for-refused-caller", f"resolver consulted ({len(obs['calls'])}x) for a caller outside the allow-list")
             return
     else:
         kind = outcome["kind"]
         consulted = len(obs["calls"])
         if consulted > 1 or (consulted == 1 and obs["calls"][0] != token):
-            ctx.fail(case, "C36:resolver-call-shape", f"resolver called {consulted}x with {obs['calls']!r} for subject {token!r}")
+            _fail(ctx, case, "C36:resolver-call-shape", f"resolver called {consulted}x with {obs['calls']!r} for subject {token!r}")
             return
         expect404 = malformed or strict_jws or (not consulted and nl_jws) or (consulted and kind == "none")
         if (malformed or strict_jws) and consulted:
-            ctx.fail(case, f"C36:resolver-consulted:{'malformed' if malformed else 'jws'}", "resolver consulted for a malformed / JWS-shaped subject")
+            _fail(ctx, case, f"C36:resolver-consulted:{'malformed' if malformed else 'jws'}", "resolver consulted for a malformed / JWS-shaped subject")
             return
         if not malformed and not strict_jws and not nl_jws and not consulted:
-            ctx.fail(case, f"C36:opaque-subject-not-resolved:{status}", f"well-formed non-JWS subject {token!r} never reached the resolver (status {status})")
+            _fail(ctx, case, f"C36:opaque-subject-not-resolved:{status}", f"well-formed non-JWS subject {token!r} never reached the resolver (status {status})")
             return
         if expect404:
             fp = _fingerprint(obs)
             if status != 404:
                 cls = "malformed:" + body["cls"] if malformed else "jws" if (strict_jws or nl_jws) else "unknown"
-                ctx.fail(case, f"C36:not-404:{cls}:{status}", f"{cls} subject answered {status} {obs['content'][:80]!r} instead of the uniform 404")
+                _fail(ctx, case, f"C36:not-404:{cls}:{status}", f"{cls} subject answered {status} {obs['content'][:80]!r} instead of the uniform 404")
                 return
             ref = st.ref404.setdefault(app, (fp, case))
             if ref[0] != fp:
-                ctx.fail(case, "C36:404-not-uniform", f"404 responses differ: {fp!r} vs {ref[0]!r} (first seen for {ref[1]['body_cls']})")
+                _fail(ctx, case, "C36:404-not-uniform", f"404 responses differ: {fp!r} vs {ref[0]!r} (first seen for {ref[1]['body_cls']})")
                 return
         elif kind == "unavailable":
             if status != 503 or obs["headers"].get("retry-after") != str(outcome["retry_after"]):
-                ctx.fail(case, f"C36:outage-not-503:{status}", f"resolver outage answered {status} retry-after={obs['headers'].get('retry-after')!r}")
+                _fail(ctx, case, f"C36:outage-not-503:{status}", f"resolver outage answered {status} retry-after={obs['headers'].get('retry-after')!r}")
                 return
         elif kind == "identity":
             ttl = outcome["ttl"]
@@ -513,22 +527,22 @@ def run_case(ctx: Any, rig: Rig, st: State, app: str, caller: dict[str, Any], bo
                 except ValueError:
                     doc = None
                 if not good or doc is None:
-                    ctx.fail(case, f"C36:ttl-not-finite-positive:{ttl_class(ttl)}", f"200 with ttl_seconds = {ttl!r}: body {obs['content'][:120]!r}")
+                    _fail(ctx, case, f"C36:ttl-not-finite-positive:{ttl_class(ttl)}", f"200 with ttl_seconds = {ttl!r}: body {obs['content'][:120]!r}")
                     return
                 if not isinstance(doc, dict) or set(doc) != set(st.success_keys) or set(doc) != {"principal", "token_name", "ttl_seconds"}:
-                    ctx.fail(case, "C36:success-body-keys", f"success body keys {sorted(doc) if isinstance(doc, dict) else type(doc)}")
+                    _fail(ctx, case, "C36:success-body-keys", f"success body keys {sorted(doc) if isinstance(doc, dict) else type(doc)}")
                     return
                 if doc["principal"] != outcome["p"] or doc["token_name"] != outcome["n"] or doc["ttl_seconds"] != ttl \
                         or isinstance(doc["ttl_seconds"], bool):
-                    ctx.fail(case, "C36:success-body-values", f"success body {doc!r} does not carry the resolver's identity")
+                    _fail(ctx, case, "C36:success-body-values", f"success body {doc!r} does not carry the resolver's identity")
                     return
             elif good:
-                ctx.fail(case, f"C36:resolved-not-200:{status}", f"resolved subject with ttl {ttl!r} answered {status} {obs['content'][:80]!r}")
+                _fail(ctx, case, f"C36:resolved-not-200:{status}", f"resolved subject with ttl {ttl!r} answered {status} {obs['content'][:80]!r}")
                 return
             # an unusable ttl answered with anything but 200 is acceptable to the property
         elif kind == "raises":
             if status == 200:
-                ctx.fail(case, "C36:resolver-error-answered-200", "resolver raised but the endpoint answered 200")
+                _fail(ctx, case, "C36:resolver-error-answered-200", "resolver raised but the endpoint answered 200")
                 return
 
     # ---------------- K: model vs implementation (batched; see State.flush) -----------------------------
@@ -598,13 +612,14 @@ def k_jws(ctx: Any, strings: list[str]) -> None:
         if m != impl:
             ctx.mismatch(case, m, impl, "_JWS_SHAPED.match: model vs implementation")
         if _STRICT_JWS.match(s) and not impl:
-            ctx.fail(case, "C36:jws-shape-missed", f"{s!r} is three base64url segments but the endpoint's shape test does not match it")
+            _fail(ctx, case, "C36:jws-shape-missed", f"{s!r} is three base64url segments but the endpoint's shape test does not match it")
 
 
 # ------------------------------------------------------------------------------------------ run / replay
 
 
 def run(ctx: Any) -> None:
+    _FAIL_SEEN.clear()
     rng = ctx.rng
     full = ctx.tier == "thorough" or ctx.deep
     rig = Rig()
